@@ -12,7 +12,7 @@ from vf.props import c07
 
 ID = "C17"
 LEVEL = "fault_enumeration"
-TECHNIQUE = "Hypothesis-generated (metafile, edit request) pairs; for each, the harness records every filesystem operation of the edit and re-runs it once per (operation, fault kind) with a crash or an OS error injected there, then strict-decodes the bytes at the metafile path ; hard-linked / symlinked metafile paths, os.write short writes; thorough tier adds a coverage-guided (atheris/libFuzzer) stage"
+TECHNIQUE = "Hypothesis-generated (metafile, edit request) pairs; for each, the harness records every filesystem operation of the edit and re-runs it once per (operation, fault kind) with a crash or an OS error injected there, then strict-decodes the bytes at the metafile path ; hard-linked / symlinked metafile paths, os.write short writes, directory that refuses new entries (no staging file possible); thorough tier adds a coverage-guided (atheris/libFuzzer) stage"
 RULE = ("Cases: metafile (tool-made or reference-encoded, as C07) x one edit request (library or CLI; plus un-encodable values: float, "
         "None inside a list, lone surrogate). For each case a dry run records the trace of filesystem operations (open for write, "
         "each write, remove/rename/replace/truncate/fsync/mkdir/chmod ...) and then EVERY (operation index, fault kind) is executed on "
@@ -42,7 +42,10 @@ def strategy(tier):
              # the metafile path may have a second name (hard link) or be a symbolic link to the real file
              "link": draw(st.sampled_from([None, None, None, "hard", "sym"])),
              # files an earlier, killed edit may have left next to the metafile: longer than anything this edit writes
-             "stale": draw(st.sampled_from([False, False, True]))}
+             "stale": draw(st.sampled_from([False, False, True])),
+             # the metafile is writable but its directory refuses new entries (no staging file, no rename): an environment, on top
+             # of which the single faults are enumerated as usual
+             "refuse_new": draw(st.sampled_from([False] * 4 + [True]))}
         if draw(st.sampled_from([False] * 6 + [True])):
             c["bad"] = draw(st.sampled_from(BAD))
         else:
@@ -129,7 +132,8 @@ def run_case(case):
 
         # dry run: record the trace
         d, p = fresh()
-        fs = faultfs.FaultFS(d)
+        refuse = bool(case.get("refuse_new"))
+        fs = faultfs.FaultFS(d, refuse_new=refuse)
         raised = None
         with fs:
             try:
@@ -141,6 +145,8 @@ def run_case(case):
         classes = ["ops=%d" % min(len(trace), 8)]
         if case.get("link"):
             classes.append("metafile-" + case["link"] + "link")
+        if refuse:
+            classes.append("directory-refuses-new-entries")
         if raised is not None:
             classes.append("edit-raises")
             if st0 != "old":
@@ -159,7 +165,7 @@ def run_case(case):
         for k, op in enumerate(trace):
             for kind in faultfs.fault_kinds(op):
                 d, p = fresh()
-                fs = faultfs.FaultFS(d, plan=(k, kind))
+                fs = faultfs.FaultFS(d, plan=(k, kind), refuse_new=refuse)
                 outcome = "completed"
                 with fs:
                     try:
